@@ -48,8 +48,29 @@ fn usage() -> i32 {
     2
 }
 
+/// A logger at the most verbose level: the library's log statements are evaluated (their arguments
+/// formatted), as in an application that has logging switched on; the text is discarded.
+struct FormattingLogger;
+
+impl log::Log for FormattingLogger {
+    fn enabled(&self, _: &log::Metadata) -> bool {
+        true
+    }
+    fn log(&self, record: &log::Record) {
+        use std::fmt::Write;
+        let mut sink = String::new();
+        let _ = write!(sink, "{}", record.args());
+        std::hint::black_box(sink.len());
+    }
+    fn flush(&self) {}
+}
+
+static LOGGER: FormattingLogger = FormattingLogger;
+
 fn main() {
     install_panic_hook();
+    let _ = log::set_logger(&LOGGER);
+    log::set_max_level(log::LevelFilter::Trace);
     let args: Vec<String> = std::env::args().collect();
     let code = match args.get(1).map(String::as_str) {
         Some("check") => {
